@@ -225,6 +225,17 @@ func (p *Profile) AddRule(log map[string]string) {
 			p.Rules = append(p.Rules, newFileFromLog(log))
 		case strings.Contains(log["operation"], "dbus"):
 			p.Rules = append(p.Rules, newDbusFromLog(log))
+		// Records of kernels that do not log the class yet
+		case log["family"] != "":
+			p.Rules = append(p.Rules, newNetworkFromLog(log))
+		case newLogMountMap[log["operation"]] != nil:
+			p.Rules = append(p.Rules, newLogMountMap[log["operation"]](log))
+		case log["rlimit"] != "":
+			p.Rules = append(p.Rules, newRlimitFromLog(log))
+		case log["operation"] == "change_onexec":
+			p.Rules = append(p.Rules, newChangeProfileFromLog(log))
+		case log["name"] != "" && log["requested_mask"] != "" && log["fsuid"] != "":
+			p.Rules = append(p.Rules, newFileFromLog(log))
 		default:
 			fmt.Printf("unknown log type: %s:%v\n", log["operation"], log)
 		}
